@@ -140,3 +140,55 @@ def inRegion (b : Block) : Bool × Bool :=
 
 end DarkluaModel.C17.WholeAssert
 
+/-! ### the region of `assert_refines_whole_u` (`C17/WholeAssertU.lean`): stage 4 unified (`Sem.HeapU`)
+
+As `WholeAssert`, but the dropped arguments of a statement-position call may ALLOCATE: literals, identifiers,
+`...`, parentheses, function expressions and table constructors (without computed keys) of such
+(`allocPureM`, a copy of `Expr.allocPure` of the generic layer). -/
+namespace DarkluaModel.C17.WholeAssertU
+open Rules Rules.RemoveCallMatch
+
+mutual
+  def allocPureM : Expr → Bool
+    | .nil | .true | .false | .num _ | .str _ | .var _ | .vararg => true
+    | .paren e => allocPureM e
+    | .fn _ => true
+    | .table es => allocPureListM es
+    | _ => false
+  def allocPureListM : List Entry → Bool
+    | [] => true
+    | .pos v :: rest => allocPureM v && allocPureListM rest
+    | .named _ v :: rest => allocPureM v && allocPureListM rest
+    | .keyed _ _ :: _ => false
+end
+
+def stmtOK (args : List Expr) : Bool :=
+  (args.all fun e => keeps e || allocPureM e) &&
+  ((args.all fun e => !keeps e || isCall (getInner e)) ||
+    (args.all fun e => !keeps e || (!isCall (getInner e) && !usesDiscard e)))
+
+def stmtRoundOK : Stmt → Bool
+  | .callStmt (.call _ none .tuple args) => stmtOK args
+  | _ => false
+
+def processStatementLoopW (M : Matcher) : Nat → Stmt → St → Stmt × St
+  | 0, s, st => (s, st)
+  | n + 1, s, st =>
+    if stmtMatched M st s && stmtRoundOK s then
+      let r := processStatementOnce M true s st
+      processStatementLoopW M n r.1 r.2
+    else (s, st)
+
+def processorW (M : Matcher) : Processor St :=
+  { RemoveCallMatch.processor M true with
+    stmt := fun s st => processStatementLoopW M (s.size + 1) s st
+    expr := fun e st => WholeAssert.processExpressionLoopW M (e.size + 1) e st }
+
+def applyW (b : Block) : Block := (Visitor.runScoped (processorW RemoveAssertions.matcher) b {}).1
+
+def inRegion (b : Block) : Bool × Bool :=
+  (!b.refs (.wat "assert"),
+    (RemoveAssertions.apply true b).1.toSexp.toString == (applyW b).toSexp.toString)
+
+end DarkluaModel.C17.WholeAssertU
+
